@@ -139,6 +139,8 @@ where S: tokio::io::AsyncRead + tokio::io::AsyncWrite + Unpin {
             while !obs.off_started.load(Ordering::SeqCst) && t0.elapsed() < Duration::from_secs(3) { tokio::time::sleep(Duration::from_millis(2)).await; }
             tokio::time::sleep(Duration::from_millis(10)).await;
         }
+        // the peer stops reading: the writer task is stuck mid-send when the embedder cancels
+        "outbound_stuck" => { for i in 0..24 { let _ = ws.send(WsMsg::Binary(req(100 + i, "/big", json!(0)).into())).await; } tokio::time::sleep(Duration::from_millis(150)).await; }
         "outbound_nonempty" => { for i in 0..24 { let _ = ws.send(WsMsg::Binary(req(100 + i, "/big", json!(0)).into())).await; } tokio::time::sleep(Duration::from_millis(30)).await; }
         _ => {}
     }
@@ -188,7 +190,7 @@ pub fn run(a: &Args) -> i32 {
         scenarios.push((e.to_string(), "connect_panic".into(), "during_connect".into(), 1));
         scenarios.push((e.to_string(), "bad_handshake".into(), "handshake".into(), 1));
         if matches!(*e, "listener_shutdown" | "drain" | "serve_connection_cancel") {
-            for p in ["idle", "off_parked"] { scenarios.push((e.to_string(), "cancel".into(), p.into(), 1)); }
+            for p in ["idle", "off_parked", "outbound_stuck"] { scenarios.push((e.to_string(), "cancel".into(), p.into(), 1)); }
         }
         if *e == "drain" { scenarios.push((e.to_string(), "drain_abort".into(), "off_parked".into(), 1)); }
     }
@@ -273,7 +275,8 @@ pub fn run(a: &Args) -> i32 {
                             ok = true;
                             if phase != "during_connect" { read_some(&mut ws, &mut frames, 1, 500).await; }
                             do_phase_and_cause(&mut ws, &phase, &cause, &ob, &mut frames).await;
-                            if cause == "socket_loss" { drop(ws); } else if cause == "cancel" || cause == "drain_abort" || cause == "connect_panic" { /* keep it open: the server ends it */ read_some(&mut ws, &mut frames, 64, 1500).await; } else { read_some(&mut ws, &mut frames, 64, 400).await; }
+                            if cause == "socket_loss" { drop(ws); } else if phase == "outbound_stuck" { /* keep the socket open and read NOTHING while the server is cancelled */ tokio::time::sleep(Duration::from_millis(2500)).await; }
+                            else if cause == "cancel" || cause == "drain_abort" || cause == "connect_panic" { /* keep it open: the server ends it */ read_some(&mut ws, &mut frames, 64, 1500).await; } else { read_some(&mut ws, &mut frames, 64, 400).await; }
                         }
                         Err(_) => { ok = false; }
                     }
@@ -302,6 +305,13 @@ pub fn run(a: &Args) -> i32 {
             token.cancel();
             if let Some(tx) = tx_hold.take() { let _ = tx.send(()); }
         }
+        // embedder cancellation with the peer stalled: the hooks must not wait for the peer (it holds the socket 2.5 s)
+        let mut prompt_disconnects = nconn as u64;
+        if phase == "outbound_stuck" {
+            let t = Instant::now();
+            while ob.disconnects.load(Ordering::SeqCst) < nconn as u64 && t.elapsed() < Duration::from_millis(1500) { std::thread::sleep(Duration::from_millis(5)); }
+            prompt_disconnects = ob.disconnects.load(Ordering::SeqCst);
+        }
         if phase == "during_connect" || phase == "inline_running" { std::thread::sleep(Duration::from_millis(60)); ob.open(); }
         for h in handles { if let Ok(ok) = rt.block_on(h) { handshake_ok &= ok; } }
         // wait for the disconnect hooks
@@ -320,7 +330,7 @@ pub fn run(a: &Args) -> i32 {
             "disconnect_before_connect": ob.disconnect_before_connect.load(Ordering::SeqCst),
             "present_during": present_during, "present_after": !reg.is_empty(), "alias_after": (0..64u64).any(|p| reg.get_by(format!("alias-{p}").as_str()).is_some()) || reg.get_by("late-alias").is_some()
                 || (0..64u64).any(|p| !reg.aliases_for(repe::PeerId(p)).is_empty() || reg.key_for(repe::PeerId(p)).is_some()),
-            "late_alias": ob.late_alias.load(Ordering::SeqCst),
+            "late_alias": ob.late_alias.load(Ordering::SeqCst), "prompt_disconnects": prompt_disconnects,
             "hello_first": hello_first && !hello_after_response,
             "off_started": ob.off_started.load(Ordering::SeqCst), "off_saw_cancel": ob.off_saw_cancel.load(Ordering::SeqCst), "stubborn": cause == "drain_abort"}));
         server_task.abort();
@@ -376,7 +386,7 @@ pub fn run(a: &Args) -> i32 {
             // if the precondition (A's sink closed while A still registered) was not reached, the scenario says nothing
             "present_during": resolves_to_b || !reached, "present_after": !reg.is_empty(),
             "alias_after": reg.get_by("session").is_some() || (0..64u64).any(|p| !reg.aliases_for(repe::PeerId(p)).is_empty()),
-            "late_alias": 0, "precondition_reached": reached,
+            "late_alias": 0, "precondition_reached": reached, "prompt_disconnects": 2,
             "hello_first": hello_first, "off_started": false, "off_saw_cancel": false, "stubborn": false}));
         server_task.abort();
     }
